@@ -147,7 +147,7 @@ class Extractor:
         self.line += text.count("\n")
 
     # ---------- global drops on a region (attributes, tracing macros)
-    def apply_global_edits(self, region, t_lo, t_hi):
+    def apply_global_edits(self, region, t_lo, t_hi, noderive=()):
         sf = region.sf
         toks, brk = sf.toks, sf.brk
         i = t_lo
@@ -159,7 +159,7 @@ class Extractor:
                 if inner and inner[0].text == "derive":
                     # filter derive list
                     names = [x.text for x in toks[i + 4:brk[i + 3]] if x.kind == "ident"]
-                    keep = [n for n in names if n in KEEP_DERIVES]
+                    keep = [n for n in names if n in KEEP_DERIVES and n not in noderive]
                     if keep != names:
                         new = "#[derive(" + ", ".join(keep) + ")]" if keep else ""
                         region.add(t.start, toks[close].end, new, "drop", "D-attr derive " + ",".join(n for n in names if n not in keep))
@@ -449,7 +449,11 @@ class Extractor:
             first_tok = a1 + 1
         reg = Region(sf, toks[it.first].start, toks[it.last].end, f["path"])
         # drop outer attributes except derive (handled by global edits)
-        self.apply_global_edits(reg, it.first, it.last)
+        noderive = ()
+        for o in f.get("opts", []):
+            if o.startswith("noderive="):
+                noderive = tuple(o[len("noderive="):].split(","))
+        self.apply_global_edits(reg, it.first, it.last, noderive)
         for (rule, frm, to) in self.rwall:
             self.apply_rw(reg, it.first, it.last, rule, None, frm, to, f["where"])
         for (rule, count, frm, to, where) in f["rws"]:
